@@ -339,4 +339,5 @@ func runC19(cw *caseWriter, tier string, seed uint64) {
 		c19random(cw, r, 40000, 60)
 		cw.stat("c19_random_cases", 40000)
 	}
+	runC19conc(cw, tier, seed)
 }
